@@ -502,3 +502,38 @@ PROPS = {
                         "arm / wasm back ends cannot be built or run here"],
     },
 }
+
+
+# --- widening (DESIGN §14, round 3): every property's own quick tier also runs its core streams, at a
+# quarter of the budget, in the configurations that select *different code* for the same operation
+# (feature `unsafe`, no optional features at all, non-SIMD tables, strict parser where it applies).
+# Round 3 showed that a change confined to one such configuration was otherwise only caught by C07/C17.
+_NO_WIDEN = {"len-sweep", "hugepiece", "huge", "kat", "lie", "race", "file", "bodyrows", "gen-large", "alloc",
+             "serde", "tables", "agg"}
+_WIDEN = {
+    "C01": ["unsafe", "optdef"], "C02": ["unsafe"], "C03": ["unsafe", "naive"], "C04": ["unsafe", "naive"],
+    "C05": ["unsafe", "naive"], "C06": ["unsafe", "naive", "optdef"], "C08": ["unsafe", "naive"],
+    "C10": ["unsafe", "naive"], "C11": ["unsafe", "naive"], "C12": ["unsafe"], "C13": ["unsafe", "quarter"],
+    "C14": ["unsafe", "naive"], "C15": ["unsafe-strict"],
+}
+_EASY_STREAMS = {"stream", "cmpstr", "file", "lie", "race"}      # need the probe's `easy` feature (std)
+
+
+def _widen():
+    for pid, cfgs in _WIDEN.items():
+        q = PROPS[pid]["streams"]["quick"]
+        base_cfg = "strict" if pid == "C15" else "default"
+        have = {(s[0], s[1]) for s in q}
+        for cfg in cfgs:
+            for s in list(q):
+                if s[0] != base_cfg or s[1] in _NO_WIDEN:
+                    continue
+                if cfg == "naive" and s[1] in _EASY_STREAMS:
+                    continue
+                if (cfg, s[1]) in have:
+                    continue
+                q.append((cfg, s[1], max(1, s[2] // 4)) + tuple(s[3:]))
+                have.add((cfg, s[1]))
+
+
+_widen()
